@@ -81,6 +81,9 @@ var lsAnnotations = map[string][]lsAnn{
 	"newRequestMessage":  {{lock: "Mutex", excl: true}},
 	"writeMessageChunks": {{lock: "Mutex", excl: true, param: "instance", argIdx: 1}},
 	"open":               {{lock: "Mutex", excl: true, param: "instance", argIdx: 1}},
+	// helpers documented "the caller must hold s.Mu": the lock is the RECEIVER's mutex; at a call site X.owned(...) the
+	// caller must hold X.Mu (same expression X), holding the Mu of another service object does not count
+	"owned": {{lock: "Mu", excl: true}},
 }
 
 // every call of an annotated function, and whether the caller holds the promised locks there
